@@ -360,6 +360,7 @@ impl AnyTracker {
                     }
                 }
                 let res = req.result.take().unwrap();
+                check_batch_size(&res, scenes);
                 t.predict(req.batch);
                 res
             }
@@ -374,6 +375,7 @@ impl AnyTracker {
                     }
                 }
                 let res = req.prediction().unwrap();
+                check_batch_size(&res, scenes);
                 t.predict(req.batch);
                 res
             }
@@ -499,6 +501,17 @@ struct Late {
     op_index: usize,
     handle: rt::thread::JoinHandle<()>,
     sink: Arc<Mutex<Vec<(u64, Vec<Rec>)>>>,
+}
+
+/// "one result per scene it contains": the handle must announce exactly the number of
+/// distinct scenes of the request (0 for an empty one), or a consumer reads too few / blocks
+fn check_batch_size(h: &PredictionBatchResult, scenes: &[(u64, Vec<Det>)]) {
+    let mut ids: Vec<u64> = scenes.iter().filter(|(_, d)| !d.is_empty()).map(|(s, _)| *s).collect();
+    ids.sort_unstable();
+    ids.dedup();
+    if h.batch_size() != ids.len() {
+        panic!("batch_size() = {} for a request holding {} scene(s)", h.batch_size(), ids.len());
+    }
 }
 
 /// `poll`: the consumer polls `ready()` (yielding in between) before every `get()`
